@@ -171,6 +171,36 @@ func (t *tr) prove(k []byte, db *memorydb.Database) error {
 	}
 	return t.raw.Prove(k, 0, db)
 }
+// keepList is a proof sink that keeps the value slices it is handed, as the production sink of
+// StateDB.GetProof / GetStorageProof (core/state.proofList) does.
+type keepList struct {
+	nodes  [][]byte
+	logger *log.Logger
+}
+
+func (l *keepList) Put(key []byte, value []byte) error { l.nodes = append(l.nodes, value); return nil }
+func (l *keepList) Delete(key []byte) error            { return nil }
+func (l *keepList) Logger() *log.Logger                { return l.logger }
+
+// proveKeeping proves into a keepList and returns the nodes in a memorydb keyed by their own hash.
+func (t *tr) proveKeeping(k []byte, logger *log.Logger) (*memorydb.Database, error) {
+	sink := &keepList{logger: logger}
+	var err error
+	if t.secure {
+		err = t.sec.Prove(t.proofKey(k), 0, sink)
+	} else {
+		err = t.raw.Prove(k, 0, sink)
+	}
+	if err != nil {
+		return nil, err
+	}
+	db := memorydb.New(logger)
+	for _, n := range sink.nodes {
+		db.Put(crypto.Keccak256(n), n)
+	}
+	return db, nil
+}
+
 func (t *tr) proveHashed(hk []byte, db *memorydb.Database) error {
 	if t.secure {
 		return t.sec.Prove(hk, 0, db)
@@ -510,6 +540,15 @@ func runHistory(m *mon.M, r *rand.Rand, logger *log.Logger, idx int, secure bool
 		} else {
 			m.Eval("proof:absent", "")
 		}
+		// the same proof collected by a sink that keeps the slices it is given (production's proofList)
+		if kdb, err := t.proveKeeping(k, logger); err != nil {
+			m.Violation("prove-error:keeping-sink:"+kind, err.Error(), wit("prove"))
+			return
+		} else if val, err := trie.VerifyProof(root, t.proofKey(k), kdb); err != nil || !bytes.Equal(val, want) {
+			m.Violation("proof-does-not-yield-stored-value:keeping-sink:"+kind, fmt.Sprintf("key %x present=%v, proof nodes kept as handed to the sink: VerifyProof=%x err=%v, stored=%x", k, present, val, err, want), wit("verify"))
+			return
+		}
+		m.Eval("proof:keeping-sink", "")
 		// collect nodes, corrupt single bits, rebuild keyed by own hash
 		var nodes [][]byte
 		it := pdb.NewIterator(nil, nil)
